@@ -6,7 +6,7 @@ From Low Require Import Lib.MachInt Lib.Bits Lib.BitSeq Lib.Lex Lib.Bytes Lib.Va
   Lib.SortedZ_tree4 Spec.Bmtree Spec.AllPathsSpec Spec.OfSpec
   Model.BmtreePath Model.BmtreeIndex Model.BmtreeAllPaths Model.BitmapOf
   Proofs.BmtreePathProofs Proofs.BmtreeRankSpec Proofs.BmtreeIndexProofs Proofs.OfProofs
-  Proofs.BmtreeAllPathsProofs Proofs.BmtreeDecodeProofs Proofs.BmtreeAllPathsLaws Proofs.BmtreeWinProofs Proofs.BmtreeDecodeDebugProofs Run.C04.
+  Proofs.BmtreeAllPathsProofs Proofs.BmtreeDecodeProofs Proofs.BmtreeAllPathsLaws Proofs.BmtreeWinProofs Proofs.BmtreeDecodeDebugProofs Proofs.BmtreeDecodeFast Run.C04.
 Import ListNotations.
 Open Scope Z_scope.
 
@@ -54,7 +54,9 @@ Proof.
   rewrite E.
   assert (Ho : opt_all (map Some idxs) = Some idxs).
   { clear. induction idxs as [|a l IH]; cbn [map opt_all]; [reflexivity|now rewrite IH]. }
-  rewrite Ho, EOf. exact ED.
+  rewrite Ho, EOf. unfold c04_dec. destruct (Height T <=? 10); [exact ED|].
+  rewrite <- ED. symmetry. apply decode_fast; [exact HT|].
+  exact (roundtrip_bm_len T ss idxs bm HT Hsub E EOf).
 Qed.
 
 (** * on every in-domain case the model side of an operation equals its specification side *)
@@ -89,7 +91,10 @@ Proof.
   { unfold as_zs, vzs. rewrite map_map. cbn [as_z]. clear. induction bm as [|a l IH]; cbn [map opt_all]; [reflexivity|].
     now rewrite IH. }
   rewrite Ez, HT, Hd, Hb. cbn [andb]. apply c04_T_ok_range in HT.
-  assert (E : c04_dec dbg T bm = Some (spec_decode T (c04_h T) bm)).
-  { unfold c04_dec. destruct dbg; [rewrite decode_debug_eq by exact HT|]; now apply decode_correct. }
+  assert (E : c04_dec dbg T bm = Some (check_decode T (c04_h T) bm)).
+  { unfold c04_dec, c04_h. rewrite check_decode_eq by exact HT.
+    destruct (Height T <=? 10).
+    - destruct dbg; [rewrite decode_debug_eq by exact HT|]; now apply decode_correct.
+    - f_equal. apply fast_decode_spec, T_range, HT. }
   now rewrite E.
 Qed.
